@@ -335,6 +335,66 @@ fn merge_case(cid: usize, rows: &[Row], ncols: usize, rng: &mut StdRng) -> J {
     c
 }
 
+// ---------------------------------------------------------------- joins
+fn join_type(t: &str) -> pull::JoinType {
+    match t { "inner" => pull::JoinType::Inner, "left" => pull::JoinType::Left, "right" => pull::JoinType::Right, "full" => pull::JoinType::Full,
+              "cross" => pull::JoinType::Cross, "semi" => pull::JoinType::Semi, _ => pull::JoinType::Anti }
+}
+/// One join of L and R (rows [key, value, unique id >= 1]) by one operator under several chunkings of both inputs.
+/// Every result row is recorded as lid * 10000 + rid (0 for a NULL-extended side), sorted.
+fn join_case(cid: usize, l: &[Row], r: &[Row], jt: &str, big: bool, rng: &mut StdRng) -> J {
+    let nullkeys = l.iter().chain(r.iter()).any(|x| x[0] == NULL);
+    let mut c = json!({"cid": cid, "k": "join", "type": jt, "L": l, "R": r, "nullkeys": nullkeys, "big": big});
+    let (n, m) = (l.len().max(1), r.len().max(1));
+    let mut chunkings: Vec<(usize, usize)> = vec![(n, m), (1, 1), (2, 3), (7, 2), (3, m), (n, 1)];
+    if big { chunkings = vec![(n, m), (2048, m), (1000, 2), (500, m), (64, 1), (2047, m), (n, 1)]; }
+    chunkings.push((rng.random_range(1..=n), rng.random_range(1..=m)));
+    chunkings.dedup();
+    let ops: Vec<&str> = match jt { "cross" => vec!["nl"], "left" | "inner" => vec!["hash", "nl"], _ => vec!["hash"] };
+    let wide = !matches!(jt, "semi" | "anti");
+    let schema: Vec<LogicalType> = (0..if wide { 6 } else { 3 }).map(|_| LogicalType::Int64).collect();
+    let res = catch(AssertUnwindSafe(|| {
+        let mut runs = vec![];
+        for op in &ops {
+            for (ls, rs) in &chunkings {
+                let left: Box<dyn Operator> = Box::new(ChunkOp { rows: l.to_vec(), ncols: 3, size: *ls, pos: 0 });
+                let right: Box<dyn Operator> = Box::new(ChunkOp { rows: r.to_vec(), ncols: 3, size: *rs, pos: 0 });
+                let mut j: Box<dyn Operator> = if *op == "hash" {
+                    Box::new(pull::HashJoinOperator::new(left, right, vec![0], vec![0], join_type(jt), schema.clone()))
+                } else {
+                    let cond: Option<Box<dyn pull::JoinCondition>> = if jt == "cross" { None } else { Some(Box::new(pull::EqualityCondition::new(0, 0))) };
+                    Box::new(pull::NestedLoopJoinOperator::new(left, right, cond, join_type(jt), schema.clone()))
+                };
+                let name = format!("{op}/{ls}x{rs}");
+                let mut chunks = vec![];
+                let mut err = false;
+                loop { match j.next() { Ok(Some(ch)) => chunks.push(ch), Ok(None) => break, Err(_) => { err = true; break; } } }
+                let rows = rows_of(&chunks);
+                let mut cols_ok = true;
+                let mut codes: Vec<i64> = rows.iter().map(|row| {
+                    let lid = if row[2] == NULL { 0 } else { row[2] };
+                    let rid = if wide && row.len() >= 6 && row[5] != NULL { row[5] } else { 0 };
+                    // every cell is the cell of the source row named by the id (or NULL on the extended side)
+                    let lsrc = if lid > 0 { l.get(lid as usize - 1).cloned() } else { None };
+                    let rsrc = if rid > 0 { r.get(rid as usize - 1).cloned() } else { None };
+                    let want_l = lsrc.unwrap_or(vec![NULL, NULL, NULL]);
+                    if row[..3] != want_l[..] { cols_ok = false; }
+                    if wide { let want_r = rsrc.unwrap_or(vec![NULL, NULL, NULL]); if row.len() != 6 || row[3..6] != want_r[..] { cols_ok = false; } } else if row.len() != 3 { cols_ok = false; }
+                    lid * 10000 + rid
+                }).collect();
+                codes.sort();
+                runs.push(json!({"name": name, "op": op, "err": err, "cols_ok": cols_ok, "codes": codes}));
+            }
+        }
+        runs
+    }));
+    match res { Ok(runs) => { c["runs"] = json!(runs); c["panic"] = json!(false); } Err(p) => { c["runs"] = json!([]); c["panic"] = json!(true); c["info"] = json!(p.chars().take(200).collect::<String>()); } }
+    c
+}
+fn gen_join_table(rng: &mut StdRng, n: usize, dom: i64, nulls: bool) -> Vec<Row> {
+    (0..n).map(|i| vec![if nulls && rng.random_bool(0.15) { NULL } else { rng.random_range(0..dom) }, rng.random_range(-20..=20), i as i64 + 1]).collect()
+}
+
 // ---------------------------------------------------------------- generators
 fn gen_table(rng: &mut StdRng, n: usize) -> Vec<Row> {
     let dom = rng.random_range(1..=5i64);
@@ -431,6 +491,41 @@ pub fn main(o: &Opts) -> i32 {
             rows.push(vec![0, 0, k + 3]);
         }
         out.emit(&merge_case(cid, &rows, 3, &mut rng));
+    }
+    let jtypes = ["inner", "left", "right", "full", "cross", "semi", "anti", "left", "inner"];
+    for _ in 0..o.usize("joins", 60) {
+        cid += 1;
+        let dom = rng.random_range(1..=5i64);
+        let nulls = rng.random_bool(0.3);
+        let l = { let n = rng.random_range(0..=9usize); gen_join_table(&mut rng, n, dom, nulls) };
+        let r = { let n = rng.random_range(0..=7usize); gen_join_table(&mut rng, n, dom, nulls) };
+        let jt = jtypes[rng.random_range(0..jtypes.len())];
+        out.emit(&join_case(cid, &l, &r, jt, false, &mut rng));
+    }
+    // output larger than one 2048-row chunk: many left rows, some unmatched, some with several matches
+    for _ in 0..o.usize("bigjoins", 4) {
+        cid += 1;
+        let n = [2040usize, 2048, 2100, 3000, 4100][rng.random_range(0..5)];
+        let dom = rng.random_range(2..=6i64);
+        let l = gen_join_table(&mut rng, n, dom, false);
+        // the right side misses about half of the keys (unmatched left rows next to matched ones at every chunk
+        // boundary of the output) and repeats others (fan-out)
+        let m = rng.random_range(1..=4usize);
+        let r: Vec<Row> = (0..m).map(|i| vec![rng.random_range(0..(dom + 1) / 2), rng.random_range(-20..=20), i as i64 + 1]).collect();
+        let jt = ["left", "inner", "left", "full", "semi", "left"][rng.random_range(0..6)];
+        out.emit(&join_case(cid, &l, &r, jt, true, &mut rng));
+    }
+    // left joins whose output alternates matched / NULL-extended rows, so that every 2048-row boundary of the output is
+    // met in each phase (row kind at the boundary x row kind after it), for fan-outs 1..3
+    if o.usize("bigjoins", 4) > 0 {
+        for parity in 0..2i64 {
+            for fan in 1..=3usize {
+                cid += 1;
+                let l: Vec<Row> = (0..4100).map(|i| vec![(i as i64 + parity) % 2, rng.random_range(-20..=20), i as i64 + 1]).collect();
+                let r: Vec<Row> = (0..fan).map(|i| vec![0, rng.random_range(-20..=20), i as i64 + 1]).collect();
+                out.emit(&join_case(cid, &l, &r, "left", true, &mut rng));
+            }
+        }
     }
     let _ = std::fs::remove_dir_all(&tmp);
     let n = out.n;
